@@ -38,6 +38,8 @@ func (f *File) Mode() os.FileMode {
 
 // ModTime is modification time
 func (f *File) ModTime() time.Time {
+	f.dataMU.RLock()
+	defer f.dataMU.RUnlock()
 	return f.time
 }
 
@@ -48,6 +50,8 @@ func (f *File) Sys() interface{} {
 
 // Size is length in bytes for regular files; system-dependent for others
 func (f *File) Size() int64 {
+	f.dataMU.RLock()
+	defer f.dataMU.RUnlock()
 	return int64(len(f.data))
 }
 
